@@ -9,12 +9,21 @@
   Under the run-time invariant `StOK` (which every state of every run satisfies, `C13.run_keeps_invariant`)
   a collection never panics and leaves the heap well formed (`collect_never_panics`,
   `collect_keeps_heap_wellformed`), so a collection may be inserted after any statement of any run.
-  Program level: `gc_invisible` (output and end status independent of the collection schedule) is
-  decided by the C07 correspondence runs under forced schedules; its proof needs the evaluator to
-  be invariant under renaming of arena indices and is not closed yet (DESIGN.md §6).
+  Program level (full): `gc_invisible` — for every well-formed statement list, every world and ANY two collection
+  schedules (never / always / native threshold / arbitrary masks), two runs that terminate agree on everything
+  observable: the same end status, and then the same output and world, or the same error (class, line, file, message,
+  output so far).  Proof (`Lemmas/Ren.lean`, `RenEval.lean`, `GcInvisible.lean`): a renaming ρ of arena indexes relates
+  the collection-free run to the collected one; every evaluator function, all 17 built-ins, indexed assignment, printing
+  and allocation commute with ρ (allocation extends ρ by the fresh pair — the recycled slot on one side, the appended
+  slot on the other — using that free slots are never in the range of ρ and free stacks have no duplicates); a
+  collection keeps the states related after ρ is cut down to the reachable slots (`collect_rel`, from `mark_exact` +
+  the sweep specification).  Collections happen only between top-level statements, where no temporaries are alive —
+  which is exactly the modelled behaviour of `Interpreter::run` and what the seeded change C07/C19b violates.
 -/
 import Pakhi.Lemmas.Collect
 import Pakhi.Lemmas.EvalInv
+import Pakhi.Lemmas.GcInvisible
+import Pakhi.Lemmas.Mono
 
 namespace Pakhi
 namespace C07
@@ -121,6 +130,31 @@ theorem collect_keeps_heap_wellformed (h h' : Heap) (scs : List Scope) (hh : Hea
     HeapOK (fun _ _ => True) h' ∧ h'.lists.length = h.lists.length ∧ h'.records.length = h.records.length := by
   obtain ⟨a, b, c⟩ := (collect_ok (fun _ _ => True) hh hs).2 h' hc
   exact ⟨a, Nat.le_antisymm c.1 b.1, Nat.le_antisymm c.2 b.2⟩
+
+/-- **garbage collection is invisible**: two terminated runs of a well-formed program under any two collection
+    schedules (and any amounts of fuel) end the same way — same output and world, or the same error -/
+theorem gc_invisible (prog : List Stmt) (hp : progWF prog = true) (g1 g2 : GcMode) (F1 F2 : Nat) (w : World) (r1 r2 : Res St)
+    (h1 : runLoop prog g1 F1 0 prog (St.init w) = r1) (h2 : runLoop prog g2 F2 0 prog (St.init w) = r2)
+    (hn1 : r1 ≠ .fuel) (hn2 : r2 ≠ .fuel) :
+    (∃ s1 s2, r1 = .ok s1 ∧ r2 = .ok s2 ∧ s1.out = s2.out ∧ s1.world = s2.world) ∨ (∃ e, r1 = .err e ∧ r2 = .err e) := by
+  have m1 := runLoop_mono prog g1 h1 hn1 F2
+  have m2 := runLoop_mono prog g2 h2 hn2 F1
+  rw [Nat.add_comm F2 F1] at m2
+  have np1 : ∀ p, r1 ≠ .panic p := fun p e => Pakhi.run_never_panics prog hp g1 F1 0 w p (h1.trans e)
+  have np2 : ∀ p, r2 ≠ .panic p := fun p e => Pakhi.run_never_panics prog hp g2 F2 0 w p (h2.trans e)
+  exact gc_schedules_agree prog g1 g2 (F1 + F2) w r1 r2 m1 m2 ⟨hn1, np1⟩ ⟨hn2, np2⟩
+
+/-- in particular the native schedule (collect when 1000 units were allocated) behaves like never collecting -/
+theorem native_gc_is_invisible (prog : List Stmt) (hp : progWF prog = true) (F : Nat) (w : World) (s1 : St)
+    (h1 : runLoop prog .native F 0 prog (St.init w) = .ok s1) :
+    ∃ s0, runLoop prog .never F 0 prog (St.init w) = .ok s0 ∧ s0.out = s1.out ∧ s0.world = s1.world := by
+  have o := runLoop_rel prog .native F 0 0 prog _ _ _ (sRel_init w)
+  rw [h1] at o
+  cases hr0 : runLoop prog .never F 0 prog (St.init w) with
+  | ok s0 => rw [hr0] at o; obtain ⟨ρ, hs⟩ := o; exact ⟨s0, rfl, hs.out, hs.world⟩
+  | err e => rw [hr0] at o; simp [ObsRel] at o
+  | panic p => rw [hr0] at o; simp [ObsRel] at o
+  | fuel => rw [hr0] at o; simp [ObsRel] at o
 
 end C07
 end Pakhi
